@@ -149,7 +149,7 @@ def _batch(args):
     out = {
         "n": 0, "digests": set(), "steps": 0, "vtime": 0.0, "probes": {}, "faults": {},
         "violations": [], "harness_errors": [], "samples": [], "nontrivial": 0,
-        "selftest_pairs": 0, "selftest_digests": {}, "leaked": 0, "extra": {},
+        "selftest_pairs": 0, "selftest_digests": {}, "selftest_mismatch": [], "leaked": 0, "extra": {},
     }
     for i in indices:
         if deadline is not None and time.time() > deadline:
@@ -181,7 +181,9 @@ def _batch(args):
             res2 = run_replay(mod, res["choices"])
             out["selftest_pairs"] += 1
             if res2.get("digest") != res["digest"] or (res2["violation"] is None) != (res["violation"] is None):
-                out["harness_errors"].append({"run_index": i, "error": "nondeterminism: in-process re-run digest %s != %s" % (res2.get("digest"), res["digest"]), "choices": res["choices"]})
+                # adjudicated by the parent: two pristine executions decide whether this is nondeterminism of the
+                # simulation or dependence of toasty on process-global state left by earlier runs
+                out["selftest_mismatch"].append(i)
             out["selftest_digests"][i] = res["digest"]
     out["digests"] = list(out["digests"])
     return out
@@ -194,11 +196,11 @@ def _pool(jobs):
 
 def fresh_digests(prop, seed, indices, hashseed="12345"):
     """Digests of the given seeded runs computed in a fresh interpreter with a
-    different PYTHONHASHSEED."""
+    different PYTHONHASHSEED, every run in its own forked child (pristine process state)."""
     env = dict(os.environ)
     env["PYTHONHASHSEED"] = hashseed
     env["PYTHONPATH"] = VERIF + os.pathsep + env.get("PYTHONPATH", "")
-    cmd = [sys.executable, "-m", "toastysim.cli", prop, "--digests", ",".join(str(i) for i in indices)]
+    cmd = [sys.executable, "-m", "toastysim.cli", prop, "--isolate", "--digests", ",".join(str(i) for i in indices)]
     env["VERIF_SEED"] = str(seed)
     p = subprocess.run(cmd, env=env, capture_output=True, text=True, timeout=600, cwd=VERIF)
     if p.returncode != 0:
@@ -364,13 +366,35 @@ def replay_file(prop, path):
     return 1 if same or not want else 2
 
 
-def verify_replay_fresh(prop, path):
+def _fresh_replay(prop, path, hashseed):
     env = dict(os.environ)
-    env["PYTHONHASHSEED"] = "777"
+    env["PYTHONHASHSEED"] = hashseed
     env["PYTHONPATH"] = VERIF + os.pathsep + env.get("PYTHONPATH", "")
     p = subprocess.run([sys.executable, "-m", "toastysim.cli", prop, "--replay", path],
                        env=env, capture_output=True, text=True, timeout=900, cwd=VERIF)
-    return p.returncode == 1 and "identical to recording" in p.stdout, p.stdout[-1500:] + p.stderr[-1500:]
+    sig = dig = None
+    for line in p.stdout.splitlines():
+        if line.startswith("replayed: "):
+            for tok in line.split():
+                if tok.startswith("sig="):
+                    sig = tok[4:]
+                elif tok.startswith("digest="):
+                    dig = tok[7:]
+    return p.returncode, sig, dig, p.stdout[-1500:] + p.stderr[-1500:]
+
+
+def verify_replay_fresh(prop, path, want_sig):
+    """The replay file must reproduce the same violation with the same trace digest in two fresh interpreters
+    (different hash seeds).  The digest recorded in the file is the one of the pristine replay."""
+    rc1, sig1, dig1, txt1 = _fresh_replay(prop, path, "777")
+    if sig1 != want_sig or dig1 is None:
+        return False, txt1
+    doc = json.load(open(path))
+    doc["trace_digest"] = dig1
+    with open(path, "w") as f:
+        json.dump(doc, f, indent=1, default=str)
+    rc2, sig2, dig2, txt2 = _fresh_replay(prop, path, "4242")
+    return (rc2 == 1 and sig2 == want_sig and dig2 == dig1 and "identical to recording" in txt2), txt2
 
 
 # -- the check -------------------------------------------------------------------
@@ -397,7 +421,7 @@ def check(prop, tier="quick", seed=0, runs=None, jobs=None, max_s=None, out=sys.
 
     agg = {"n": 0, "digests": set(), "steps": 0, "vtime": 0.0, "probes": {}, "faults": {}, "violations": [],
            "harness_errors": [], "samples": [], "nontrivial": 0, "selftest_pairs": 0, "selftest_digests": {},
-           "leaked": 0, "extra": {}}
+           "selftest_mismatch": [], "leaked": 0, "extra": {}}
     hard_timeout = max_s + 300
     with _pool(jobs) as ex:
         futs = [ex.submit(_batch, t) for t in tasks]
@@ -411,6 +435,7 @@ def check(prop, tier="quick", seed=0, runs=None, jobs=None, max_s=None, out=sys.
                 agg["nontrivial"] += r["nontrivial"]
                 agg["selftest_pairs"] += r["selftest_pairs"]
                 agg["selftest_digests"].update(r["selftest_digests"])
+                agg["selftest_mismatch"].extend(r["selftest_mismatch"])
                 agg["leaked"] += r["leaked"]
                 for k in ("probes", "faults", "extra"):
                     for kk, v in r[k].items():
@@ -429,16 +454,26 @@ def check(prop, tier="quick", seed=0, runs=None, jobs=None, max_s=None, out=sys.
                 except Exception:
                     pass
 
-    # fresh-interpreter determinism self-test on a subset
+    # determinism self-test: the same seeded runs executed twice in pristine processes (fresh interpreters with two
+    # other PYTHONHASHSEEDs, one forked child per run) must give the same trace digest.  A digest that differs only
+    # from the in-batch execution means toasty depends on process-global state left by earlier runs in the batch
+    # process - reported in the evidence, not an error of the simulation.
     fresh_pairs = 0
+    history_dependent = 0
     if agg["selftest_digests"] and not agg["harness_errors"]:
-        idx = sorted(agg["selftest_digests"])[: getattr(mod, "FRESH_SELFTEST", 8)]
+        mism = sorted(set(agg["selftest_mismatch"]))
+        idx = sorted(set(sorted(agg["selftest_digests"])[: getattr(mod, "FRESH_SELFTEST", 8)]) | set(mism[:12]))
         try:
-            fd = fresh_digests(prop, seed, idx)
+            fa = fresh_digests(prop, seed, idx, hashseed="12345")
+            fb = fresh_digests(prop, seed, idx, hashseed="999")
             for i in idx:
                 fresh_pairs += 1
-                if fd.get(i) != agg["selftest_digests"][i]:
-                    agg["harness_errors"].append({"run_index": i, "error": "nondeterminism: fresh interpreter (PYTHONHASHSEED=12345) digest %s != %s" % (fd.get(i), agg["selftest_digests"][i])})
+                if fa.get(i) != fb.get(i):
+                    agg["harness_errors"].append({"run_index": i, "error": "nondeterminism: two pristine executions (PYTHONHASHSEED 12345 / 999) gave digests %s != %s" % (fa.get(i), fb.get(i))})
+                elif fa.get(i) != agg["selftest_digests"][i] or i in mism:
+                    history_dependent += 1
+            if len(mism) > 12:
+                history_dependent += len(mism) - 12
         except Exception as e:
             agg["harness_errors"].append({"run_index": -1, "error": "fresh-interpreter self-test failed: %s" % e})
 
@@ -466,7 +501,7 @@ def check(prop, tier="quick", seed=0, runs=None, jobs=None, max_s=None, out=sys.
             continue
         path = write_replay(prop, seed, v["run_index"], best, len(v["choices"]), best_r, nrep)
         nrep += 1
-        ok, txt = verify_replay_fresh(prop, path)
+        ok, txt = verify_replay_fresh(prop, path, sig)
         if not ok:
             agg["harness_errors"].append({"run_index": v["run_index"], "error": "replay file %s does not reproduce identically in a fresh interpreter:\n%s" % (path, txt)})
             continue
@@ -504,7 +539,9 @@ def check(prop, tier="quick", seed=0, runs=None, jobs=None, max_s=None, out=sys.
             "probes": agg["probes"],
             "workload_mix": agg["extra"],
             "components": mod.COMPONENTS,
-            "determinism_pairs_checked": {"in_process": agg["selftest_pairs"], "fresh_interpreter_other_hashseed": fresh_pairs},
+            "determinism_pairs_checked": {"in_process": agg["selftest_pairs"], "in_process_mismatches": len(set(agg["selftest_mismatch"])),
+                                          "pristine_process_pairs_two_hashseeds": fresh_pairs,
+                                          "runs_depending_on_earlier_runs_in_the_same_process": history_dependent},
             "known_findings_reproduced": sorted(known_hit),
             "harness_errors": len(agg["harness_errors"]),
             "exhaustive": False,
@@ -521,7 +558,8 @@ def check(prop, tier="quick", seed=0, runs=None, jobs=None, max_s=None, out=sys.
         agg["n"], ndist, agg["steps"], agg["vtime"], wall, agg["n"] / wall * 3600 if wall else 0), file=out)
     print("faults fired: %s" % json.dumps(agg["faults"], sort_keys=True), file=out)
     print("probes: %s" % json.dumps(agg["probes"], sort_keys=True), file=out)
-    print("determinism: %d in-process pairs, %d fresh-interpreter pairs" % (agg["selftest_pairs"], fresh_pairs), file=out)
+    print("determinism: %d in-process pairs (%d differing), %d pristine-process pairs under two other hash seeds, %d runs depend on process history" % (
+        agg["selftest_pairs"], len(set(agg["selftest_mismatch"])), fresh_pairs, history_dependent), file=out)
     for sig, (kf, n, v) in sorted(known_hit.items()):
         print("KNOWN-FINDING: property=%s signature=%s %s (reproduced in %d runs, e.g. run_index=%d)" % (prop, sig, kf["text"], n, v["run_index"]), file=out)
     for he in agg["harness_errors"][:10]:
